@@ -140,6 +140,11 @@ func (self *Interpreter) callFunc(span errors.Span, val value.Value, args []ast.
 
 func (self *Interpreter) block(node ast.AnalyzedBlock, handleScoping bool) (*value.Value, *value.Interrupt) {
 	verifStep()
+	// Check for the cancelation signal: a loop with an empty body executes no statement which could notice it.
+	if i := self.checkCancelation(node.Range); i != nil {
+		return nil, i
+	}
+
 	if handleScoping {
 		self.pushScope()
 		defer self.popScope()
